@@ -224,6 +224,21 @@ import six
             self.variants.update(snapshot)
             raise"""),
     ]},
+    {"name": "checksum-unbuffered-readinto-loop", "edits": [
+        (TI, """    with open(path, "rb") as fo:
+        while True:
+            chunk = fo.read(1024**2)
+            if not chunk:
+                break
+            checksum.update(chunk)""", """    buf = bytearray(1024**2)
+    view = memoryview(buf)
+    with open(path, "rb", buffering=0) as fo:
+        while True:
+            n = fo.readinto(buf)
+            if not n:
+                break
+            checksum.update(view[:n])"""),
+    ]},
 ]
 
 
